@@ -152,6 +152,20 @@ func drawCRSWorld(t *rapid.T, label string, nTargets int, opts ProgOpts, rulesOp
 		prog := drawProgram(t, opts, label+"-prog")
 		w.Put("crs/regex-assembly/"+target+".ra", joinLines(prog.Lines))
 		cw.Targets = append(cw.Targets, target)
+		// further links of the same rule with an assembly file of their own (NNNNNN.ra next to NNNNNN-chainK.ra)
+		if chain > 0 && chance(t, 40, label+"-morelinks") {
+			for k2 := 0; k2 <= chain; k2++ {
+				if k2 == k || !chance(t, 70, label+"-link") {
+					continue
+				}
+				t2 := id
+				if k2 > 0 {
+					t2 = fmt.Sprintf("%s-chain%d", id, k2)
+				}
+				w.Put("crs/regex-assembly/"+t2+".ra", joinLines(drawWordList(t, 1, 3, label+"-linkw", nil)))
+				cw.Targets = append(cw.Targets, t2)
+			}
+		}
 	}
 	renderRuleFile(rf, rulesOpts, "# rules\n\n", nil)
 	w.Put(rf.Path, rf.Content)
